@@ -107,6 +107,17 @@ CHECKS = [
         "note": "trusted: ref/codec.py and the explicit convert() expectation (checked against each other on every case)",
     },
     {
+        "property_id": "C10",
+        "level": "model_checking",
+        "design_ref": "DESIGN.md 4/C10",
+        "technique": "stateless exploration of the real reader under a controlled scheduler (every rglob order and bookkeeping-set iteration order is a choice point), deviation-bounded DFS, outcomes compared with a reference model and with the canonical schedule",
+        "text": "16 namespace trees x read_namespace and read_files over every target subset and list order, each executed under every schedule "
+        "within the deviation bound (unbounded for <=3 files); the outcome must equal ref.ns (one composite per file, none from lookups, order, "
+        "direct/transitive split) and be identical across schedules; ~60 argument spellings per tree; 176 directory sets x the collision flag; "
+        "a supplementary cross-process hash-seed pass (8 seeds) for the set comprehensions the scheduler cannot own.",
+        "note": "trusted: ref/ns.py; move set reduced for >=4 items; the hash-seed pass is sampled and reported separately (hashseed_runs), never used to claim exhaustiveness",
+    },
+    {
         "property_id": "C12",
         "level": "exploration",
         "design_ref": "DESIGN.md 4/C12",
